@@ -92,7 +92,7 @@ theorem hqr2_exceptional_shift_invisible (st st' : HqrSt ℝ) (ev : HqrEv ℝ)
 /-- non-vacuity: the `iter == 10` shift of a 3 × 3 window with diagonal (1, 2, 3) -/
 example : ∃ st', hqrStep (hqrInit 3 (fun i => ((i : ℝ) + 1))) .ex10 = some st' ∧ st'.exshift = 3 ∧ st'.diag 0 = -2 := by
   refine ⟨_, rfl, ?_, ?_⟩
-  all_goals (simp [applyShift, hqrInit]; norm_num)
+  all_goals (first | (simp [applyShift, hqrInit]; done) | (simp [applyShift, hqrInit]; norm_num))
 
 /-- the cancellation is a property of the transcribed text, not of every update of this shape: with
 `exshift = x` in place of `exshift += x` (`applyShiftOverwrite`, not the model) a second shift moves the
